@@ -106,6 +106,11 @@ class Stmts(Exec):
             if ok is not None:
                 self.setcell(ok, c, z3.Store(z, kz, opt_none(ot))); outs.append((ok, NORMAL))
             return outs
+        if isinstance(t, ListT) and t.elem != ANY and k.t == INT:
+            outs = []
+            for x, r in self.bm_list_pop(st, c, [k], {}, node):
+                outs.append((x, r if _isR(r) else NORMAL))
+            return outs
         h = self.reg.delitem_hook
         if h is not None:
             r = h(self, st, c, k, node)
